@@ -53,6 +53,17 @@ CHECKS = {
     note='Trusted: raw-token source models the regex level; token-level reference = real tables (C03). The T leg is exploration over a derived space.',
     technique='symbolic execution of the real lexer wrapper on symbolic token kinds (relational: with/without layout) + table-driven replay',
     engine='SX+GX'),
+ 'C12': dict(
+    level=('other', 'P: one step of the real yacc error hook (Parser.p_error, _raise_syntax_error, format_lex_token) from an arbitrary symbolic lexer state under SX - every optional token present/absent, every token kind symbolic - z3 decides each test; any exception other than ECMASyntaxError on a feasible path is reported. '
+                    'E: exhaustive enumeration of every string of length <= 3/4 over 56/38 class representatives, all truncations and single-character corruptions of corpus programs, and long-run/deep-nesting stress inputs through parse() under the default recursion limit: termination, exception type, and that every quoted text at line:col in the message occurs there.', 'DESIGN.md C12'),
+    note='Trusted: class representatives w.r.t. the lexer patterns; the contract of auto_semi at end of input (decided in C04). The lexer error handlers (regex-driven) are covered by enumeration only - their regex operations on symbolic text are outside the SX model.',
+    technique='symbolic execution of the real error hook from an arbitrary lexer state (z3 finite domains) + exhaustive enumeration of short strings',
+    engine='SX'),
+ 'C14': dict(
+    level=('other', 'SX over symbolic call histories: one printer object (5 configurations incl. obfuscating rule stacks), a first call abandoned after a SYMBOLIC number of fragments (z3 Int compared with the fragment counter: paths = exactly the feasible abandon points + exhaustion) or raising mid-way, then reuse; the reused printer must yield the fragment sequence of a fresh one and every tree (deep snapshot incl. positions) must be unchanged; histories of length 2/3 over 4 trees incl. a 300-name scope; shortcut entry points compared with explicit calls.', 'DESIGN.md C14'),
+    note='Trusted: fragment tuples compare by value. Outside: longer histories, interleaved generators.',
+    technique='symbolic execution with a symbolic abandon index over bounded call histories of the real printers',
+    engine='SX'),
  'C13': dict(
     level=('other', 'S: relational SX check on the real Lexer wrapper: the stream of real tokens (kinds, AUTOSEMI, DIV/REGEX faces) with comment items inserted at <= 2 gaps of <= 2/3 tokens of symbolic kind equals the stream without them, capture off and on, no comment handed over twice. '
                     'T: structures x every gap x 7 comment spellings: tree equality with/without capture and vs the comment-free text; attached comments verbatim, located, ordered, unique; pretty-print/re-parse keeps tree and comment sequence; no line terminator between a restricted keyword and its operand.', 'DESIGN.md C13'),
